@@ -13,8 +13,10 @@
 //	      interface, k>0 = owned by sibling router k), Up}
 //	(*Config).Build() (*Router, error)      real dataPlane with fake links (no sockets)
 //	(*Config).Gallina() string              Router.mkCfg term
-//	(*Config).MAC(info, hop) [6]byte        hop-field MAC under the AS key (real path.MAC)
-//	MAC(key, segid, ts, exp, in, eg)        same for any key
+//	(*Config).MAC(info, hop) [6]byte        hop-field MAC under the AS key
+//	MAC(key, segid, ts, exp, in, eg)        same for any key. These are the REFERENCE MAC (refmac.go:
+//	                                        documented input block + own AES-CMAC), not path.MAC;
+//	                                        RefMACInput/RefFullMAC/RefCMAC, ImplMACInput/ImplFullMAC (code under test)
 //	Link ids: LinkInternal (0), external link = interface id, LinkSibling(k) = 0x10000+k.
 //	Ingress{Kind: IngExt|IngSib|IngInt, ID}  + (Ingress).Link() / .Gallina()
 //
@@ -74,7 +76,9 @@
 //	CaseTerm(cfgName, cfg, ing, l4, obs)     Gallina `let p := <pkt> in Router.CPkt ...` incl. the MAC
 //	                                         table (every MAC the model may query, real key)
 //	Consts()                                 Go constants in the order of Router.const_value
-//	Main(prop, checkFn, rule, body)          the runner pattern shared by cmd/c01,c05,c06,c07:
+//	Main(prop, checkFn, rule, body)          the runner pattern (cases of type Router.case);
+//	MainX(...)                               same with Router.xcase: each packet case is followed by a
+//	                                         mac-layout case (used by cmd/c01,c05,c06,c07):
 //	                                         Ctx{Run, Rng, Now, Tagger, NonTrivial, After},
 //	                                         x.AddConfig(cfg) (name, *Router), x.Emit(stream, name, rt, sc),
 //	                                         x.RandomStreams(nCfg, nValid, nMut, kinds, muts), x.ConstCases()
